@@ -21,8 +21,8 @@ func H_C15_Lemma_Idem() {
 }
 
 func H_C15_Lemma_Sep() {
-	a := zzvrt.Str("a")
-	b := zzvrt.Str("b")
+	a := zzvrt.StrMax("a", 4)
+	b := zzvrt.StrMax("b", 4)
 	zzvrt.Assert(NormalizeSKI(a+" "+b) == NormalizeSKI(a+b), "C15.lemma-space")
 	zzvrt.Assert(NormalizeSKI(a+"-"+b) == NormalizeSKI(a+b), "C15.lemma-dash")
 	zzvrt.Cover("lemma.end")
